@@ -174,11 +174,73 @@ def gen_case(ck, cap):
     raise RuntimeError("no case")
 
 
+def gen_hashset_case(rng):
+    """Sequences of sorted, pairwise disjoint int64 batches for TorchHashSet (the seen set of BFS-mode walks): values
+    over the whole signed 64-bit range incl. the extremes, clustered values, 1..4 values per batch, up to 35 batches
+    (the set merges its tensors at every 10th)."""
+    lo, hi = -(2**63), 2**63 - 1
+    style = rng.choice(["uniform", "extremes", "cluster", "mixed", "two-clusters", "two-clusters"])
+    used, batches = set(), []
+    for _ in range(rng.randint(1, 35) if style != "two-clusters" else rng.randint(10, 32)):
+        b = set()
+        for _ in range(rng.randint(1, 4) if style != "two-clusters" else 1):
+            r = rng.random()
+            if style == "two-clusters":
+                # members near both ends of the int64 range and (mostly) nothing in between: neighbouring members
+                # of the sorted set are then 2^63 or more apart, where int64 differences wrap
+                v = lo + rng.randint(0, 2**rng.randint(1, 62)) if r < 0.45 else hi - rng.randint(0, 2**rng.randint(1, 62)) if r < 0.9 else rng.randint(lo, hi)
+            elif style == "uniform" or (style == "mixed" and r < 0.5):
+                v = rng.randint(lo, hi)
+            elif style == "extremes" or (style == "mixed" and r < 0.8):
+                v = rng.choice([lo, lo + 1, hi, hi - 1, 0, -1, 1, 2**62, -(2**62), 2**63 - 2**32, lo + rng.randint(0, 50), hi - rng.randint(0, 50)])
+            else:
+                v = rng.randint(-40, 40)
+            if v not in used:
+                b.add(v)
+                used.add(v)
+        if b:
+            batches.append(sorted(b))
+    members = sorted(used)
+    q = members + [min(hi, v + 1) for v in members[:8]] + [max(lo, v - 1) for v in members[:8]] + [rng.randint(lo, hi) for _ in range(5)] + [lo, hi, 0]
+    rng.shuffle(q)
+    return {"op": "hashset", "batches": batches, "queries": q}
+
+
+def run_hashset(ck: Check, case: dict):
+    """TorchHashSet is a set: after adding batches, a value is reported 'seen' exactly when it was added; also compared
+    tensor by tensor with the model `HashSetM` (theorems HashSetM.addSorted_inv / unseen_iff carry the set semantics)."""
+    from cayleypy.torch_utils import TorchHashSet
+
+    batches, q = case["batches"], case["queries"]
+    hs = TorchHashSet()
+    for b in batches:
+        hs.add_sorted_hashes(torch.tensor(b, dtype=torch.int64))
+    keep = hs.get_mask_to_remove_seen_hashes(torch.tensor(q, dtype=torch.int64)).tolist()
+    members = {v for b in batches for v in b}
+    ck.case(["hashset", batches, q], len(batches) >= 10, sample={"op": "TorchHashSet", "batches": len(batches), "values": len(members), "span": max(members) - min(members)})
+    ck.count("hashset:" + ("merged" if len(batches) >= 10 else "unmerged"))
+    if any(b - a >= 2**63 for a, b in zip(sorted(members), sorted(members)[1:])):
+        ck.count("hashset: neighbouring members >= 2^63 apart")
+    wrong = [v for v, k in zip(q, keep) if bool(k) != (v not in members)]
+    if wrong:
+        ck.violation(
+            "C07/hashset/" + ("forgets-member" if any(v in members for v in wrong) else "phantom-member"),
+            "TorchHashSet (the seen set of BFS-mode random walks) answers membership wrongly: a forgotten hash lets a walk emit the same state twice",
+            {"case": case, "wrong_values": wrong[:10], "data": [t.tolist() for t in hs.data]},
+        )
+        return
+    out = ck.driver().ask("hset ; " + " ".join(map(str, q)) + " ; " + " ; ".join(" ".join(map(str, b)) for b in batches))
+    data_m, keep_m = out.split(" ; ")
+    data_i = " | ".join(" ".join(map(str, t.tolist())) for t in hs.data)
+    if keep_m.split() != [str(int(bool(k))) for k in keep] or data_m.strip() != data_i.strip():
+        ck.correspondence_break("TorchHashSet and model HashSetM differ", {"case": case, "model": out, "impl_data": data_i})
+
+
 def main():
     ck = Check("C07")
     if ck.replay:
         body = json.load(open(os.path.join(VERIF, ck.replay) if not os.path.isabs(ck.replay) else ck.replay))
-        ck.guard(run_case, ck, body["case"])
+        ck.guard(run_hashset if body["case"].get("op") == "hashset" else run_case, ck, body["case"])
         ck.finish(rule="replay of one recorded case (fresh random draws)")
     ck.lean_obligations("CvProps.C07", THEOREMS)
     for case in json.load(open(os.path.join(VERIF, "harness", "corpus", "C07.json"))):
@@ -188,8 +250,12 @@ def main():
         if ck.enough():
             break
         ck.guard(run_case, ck, gen_case(ck, 600 if not ck.thorough else 6000))
+    for _ in range(300 if not ck.thorough else 6000):
+        if ck.enough():
+            break
+        ck.guard(run_hashset, ck, gen_hashset_case(ck.rng))
     ck.assumptions = ["torch.randint / torch.randperm results are recorded and replayed by the model; the theorems hold for all draws"]
-    ck.finish(rule="generated definitions x modes classic / bfs / nbt (history depth 0-3) x widths 1-40 (or wide) x lengths 1-40 (or long) x start default / list / ndarray / tensor x encodings; judged by exact-length reachability sets and Spec distances")
+    ck.finish(rule="generated definitions x modes classic / bfs / nbt (history depth 0-3) x widths 1-40 (or wide) x lengths 1-40 (or long) x start default / list / ndarray / tensor x encodings; judged by exact-length reachability sets and Spec distances; plus TorchHashSet operation sequences (1-35 sorted disjoint batches over the whole int64 range) judged as a set and compared with the model HashSetM")
 
 
 if __name__ == "__main__":
